@@ -164,6 +164,85 @@ fn library(s: &Scenario) -> Result<String, String> {
     Ok(root.to_serde_struct(&o))
 }
 
+/// sizes a maintainer might choose for a read or write buffer
+const BOUNDARIES: &[usize] = &[4096, 8192, 16384, 24576, 32768, 65536];
+
+fn plain_scenario(input: Vec<u8>, output: OutputKind) -> Scenario {
+    Scenario {
+        input_kind: InputKind::Valid,
+        input,
+        parser: None,
+        parser_short: false,
+        derive: None,
+        sort: None,
+        output,
+        args_first: false,
+        long_existing: false,
+        same_length_existing: false,
+        empty_existing: false,
+        rerun: false,
+        arg_style: 0,
+        odd_names: false,
+    }
+}
+
+/// deterministic family: input files with a multi-byte character straddling (or touching) every buffer boundary at
+/// every alignment, and inputs whose output (header + rendering, plus the newline on stdout) has exactly a boundary's
+/// length, one byte less and one byte more
+fn boundary_scenarios() -> Vec<(String, Scenario)> {
+    let mut out = Vec::new();
+    for &b in BOUNDARIES {
+        for ch in ["é", "€", "𝄞"] {
+            for k in 0..=ch.len() {
+                // the character starts k bytes before the boundary
+                let mut doc = String::from("<a>");
+                while doc.len() < b - k {
+                    doc.push('x');
+                }
+                doc.push_str(ch);
+                doc.push_str(ch);
+                doc.push_str("</a>");
+                for o in [OutputKind::Stdout, OutputKind::NewFile] {
+                    out.push((format!("input with `{}` starting {} bytes before offset {} ({:?})", ch, k, b, o), plain_scenario(doc.clone().into_bytes(), o)));
+                }
+            }
+        }
+    }
+    // exact output lengths: n text-leaf children, the last one's name padded
+    let doc_for = |n: usize, last_len: usize| -> String {
+        let mut d = String::from("<r>");
+        for i in 0..n {
+            d.push_str(&format!("<c{}>t</c{}>", i, i));
+        }
+        let last: String = std::iter::once('z').chain(std::iter::repeat('y').take(last_len.saturating_sub(1))).collect();
+        d.push_str(&format!("<{}>t</{}>", last, last));
+        d.push_str("</r>");
+        d
+    };
+    let total = |doc: &str| -> usize { library(&plain_scenario(doc.as_bytes().to_vec(), OutputKind::Stdout)).map(|r| HEADER.len() + r.len()).unwrap_or(0) };
+    for &b in &BOUNDARIES[..3] {
+        // largest n whose output stays below the boundary, then pad the last name
+        let mut n = 1;
+        while total(&doc_for(n + 1, 1)) + 40 < b {
+            n += 1;
+        }
+        let base = total(&doc_for(n, 1));
+        for target in [b - 2, b - 1, b, b + 1] {
+            if target <= base {
+                continue;
+            }
+            let doc = doc_for(n, 1 + target - base);
+            if total(&doc) != target {
+                continue;
+            }
+            for o in [OutputKind::Stdout, OutputKind::NewFile, OutputKind::ExistingFile] {
+                out.push((format!("output of exactly {} bytes before the final newline ({:?})", target, o), plain_scenario(doc.clone().into_bytes(), o)));
+            }
+        }
+    }
+    out
+}
+
 fn run(s: &Scenario, dir: &Path) -> Result<(), String> {
     std::fs::create_dir_all(dir).map_err(|e| format!("INFRA mkdir: {}", e))?;
     let (in_name, out_name) = if s.odd_names { ("in put é 名.xml", "out put é 名.rs") } else { ("input.xml", "out.rs") };
@@ -402,13 +481,41 @@ impl Property for C12 {
             Err(e) => Err(Failure::new(e).with_detail(describe(&s))),
         }
     }
-    fn extra(&self, _tier: Tier, _seed: u64, _st: &mut Stats) -> Result<(), (Failure, Value)> {
+    fn extra(&self, _tier: Tier, _seed: u64, st: &mut Stats) -> Result<(), (Failure, Value)> {
+        // buffer-boundary family (fixed, enumerated)
+        for (i, (label, s)) in boundary_scenarios().into_iter().enumerate() {
+            let dir = verif_root().join("work").join(format!("c12-{}", std::process::id())).join(format!("boundary-{}", i));
+            let res = run(&s, &dir);
+            let _ = std::fs::remove_dir_all(&dir);
+            st.evaluations += 1;
+            st.count("boundary_family.runs");
+            match res {
+                Ok(()) => {}
+                Err(e) if e.starts_with("INFRA") => return Err((Failure::new(e).with_signature("infrastructure"), Value::Null)),
+                Err(e) => {
+                    let _ = std::fs::remove_dir_all(verif_root().join("work").join(format!("c12-{}", std::process::id())));
+                    return Err((Failure::new(format!("boundary family, {}: {}", label, e)).with_detail(json!({"input_bytes": s.input.len()})), json!({"boundary_label": label})));
+                }
+            }
+        }
         // all cases have run: remove this process's scratch directory
         let _ = std::fs::remove_dir_all(verif_root().join("work").join(format!("c12-{}", std::process::id())));
         Ok(())
     }
+    fn replay_custom(&self, payload: &Value) -> Result<(), Failure> {
+        let label = payload["boundary_label"].as_str().unwrap_or("");
+        for (i, (l, s)) in boundary_scenarios().into_iter().enumerate() {
+            if l == label {
+                let dir = verif_root().join("work").join(format!("c12-replay-{}", std::process::id())).join(format!("boundary-{}", i));
+                let res = run(&s, &dir);
+                let _ = std::fs::remove_dir_all(verif_root().join("work").join(format!("c12-replay-{}", std::process::id())));
+                return res.map_err(|e| Failure::new(format!("boundary family, {}: {}", l, e)));
+            }
+        }
+        Err(Failure::new(format!("no boundary scenario is labelled `{}`", label)))
+    }
     fn rule(&self) -> String {
-        "one process run of the freshly built CLI per case: input file in {generated valid document, byte-damaged UTF-8 document, non-UTF-8, missing, a directory, element-less} x --parser/-p in {default, quick-xml-de, serde-xml-rs} x --derive=<string from a list incl. empty, leading dashes, unicode, newline, shell metacharacters> or default x --sort in {default, unsorted, name} x output in {stdout, new file, existing file (empty, short, 15 KB and thus longer than the new output, or garbage of exactly the new output's length), path in a missing directory, path that is a directory, path below a regular file}, options before or after the positional arguments, written as `--opt=value`, `--opt value` or `-o value`, file names plain or with blanks and non-ASCII characters. Four in ten successful file outputs are followed by a second run into the same file with the other sort order and a permuted derive list (often the same output length). Oracle: success = exit 0 and stdout (plus newline) or file bytes equal header + in-process library rendering with the mapped options, stdout empty when a file is named; failure = exit 1, empty stdout, non-empty stderr, named output untouched when the input was at fault. Non-trivial = any non-default option, an output file or a fault; distinct by hash of input bytes and arguments.".into()
+        "a fixed buffer-boundary family (inputs with a 2-, 3- or 4-byte character starting 0..len bytes before offsets 4096, 8192, 16384, 24576, 32768, 65536; inputs whose output has exactly 4096/8192/16384 bytes, one or two less, one more; stdout, new file, existing file); sampled: one process run of the freshly built CLI per case: input file in {generated valid document, byte-damaged UTF-8 document, non-UTF-8, missing, a directory, element-less} x --parser/-p in {default, quick-xml-de, serde-xml-rs} x --derive=<string from a list incl. empty, leading dashes, unicode, newline, shell metacharacters> or default x --sort in {default, unsorted, name} x output in {stdout, new file, existing file (empty, short, 15 KB and thus longer than the new output, or garbage of exactly the new output's length), path in a missing directory, path that is a directory, path below a regular file}, options before or after the positional arguments, written as `--opt=value`, `--opt value` or `-o value`, file names plain or with blanks and non-ASCII characters. Four in ten successful file outputs are followed by a second run into the same file with the other sort order and a permuted derive list (often the same output length). Oracle: success = exit 0 and stdout (plus newline) or file bytes equal header + in-process library rendering with the mapped options, stdout empty when a file is named; failure = exit 1, empty stdout, non-empty stderr, named output untouched when the input was at fault. Non-trivial = any non-default option, an output file or a fault; distinct by hash of input bytes and arguments.".into()
     }
     fn assumptions(&self) -> Vec<String> {
         vec![
